@@ -7,6 +7,7 @@ import WV.Proofs.C12_L2
 import WV.Proofs.C12_Inv
 import WV.Proofs.C12_E2E
 import WV.Proofs.C12_Select
+import WV.Gen.Skel
 
 /-!
 C12 property theorems — Dilation L2 framing / encryption / encoding is lossless and rejects
@@ -333,6 +334,46 @@ theorem unkeyed_connection_delivers_nothing (cfg : L2Cfg) (relay ld : Bool)
   refine ⟨hd, hc, hq, hm, ?_⟩
   simp only [l2Select, upSelect]
   rw [hd]; rfl
+
+/-! ## the KCM comes first -/
+
+/-- tie to the source (call skeletons extracted by `ast` on every run): on the connection it
+    selects, `Connector.select_and_stop_remaining` first calls `c.select(manager)`, then — Leader
+    only — `c.send_record(KCM())`, and only then `manager.connector_connection_made(c)`, whose
+    `Outbound.use_connection` re-sends every un-acked record at once.  `honestStream` (KCM before
+    every record) and `selectionWrites` are written against this order; swapping the two calls puts
+    records on the wire before the KCM, which `record_before_kcm_kills_connection` shows is fatal. -/
+theorem selection_skeleton :
+    Skel.skeleton "Connector.select_and_stop_remaining" =
+      [("-", "_contenders.clear"), ("-", "self.stop_listeners"), ("-", "self.stop_pending_connectors"),
+       ("-", "self.stop_pending_connections"), ("-", "c.select"), ("if", "KCM"), ("if", "c.send_record"),
+       ("-", "_manager.connector_connection_made")] ∧
+    Skel.skeleton "Outbound.use_connection" =
+      [("-", "_queued_unsent.extend"), ("-", "c.transport.registerProducer"), ("-", "self.resumeProducing")] ∧
+    (Skel.skeleton "Outbound.resumeProducing").head? = some ("while/if", "_connection.send_record") := by
+  decide
+
+/-- what the selecting side writes is a KCM-first stream: the Leader's writes at selection followed
+    by anything written later are exactly the record list `honestStream` frames -/
+theorem selection_writes_kcm_first (backlog later : List Rec) :
+    selectionWrites true backlog ++ later = .kcm :: (backlog ++ later) := by
+  simp [selectionWrites]
+
+/-- why that order is necessary: a perfectly keyed, well-formed record that arrives before the
+    KCM (DCP still `unselected`) raises `NoTransition` out of `dataReceived` — the connection dies,
+    and nothing is queued or delivered -/
+theorem record_before_kcm_kills_connection (cfg : L2Cfg) (hN : cfg.noise.Ideal) (u : UpSt) (r : Rec)
+    (b rest : Bytes) (n1 : Nat)
+    (hr : u.rcd = .want_message) (hd : u.dcp = .unselected)
+    (hwf : r.wf cfg.validUtf8) (hk : r ≠ .kcm)
+    (hsend : sendRecord cfg.noise u.rxNonce r = some (b, n1)) :
+    ∃ body u1, parseFrame (b ++ rest) = some (body, rest) ∧
+      l2Token cfg u (.frame body) = .error (.noTransition, u1) ∧
+      u1.toManager = u.toManager ∧ u1.queued = u.queued ∧ u1.dcp = .unselected := by
+  obtain ⟨body, pt, hpf, ho, hp⟩ := send_record_roundtrip cfg hN u.rxNonce n1 r b rest hwf hsend
+  refine ⟨body, { u with rcd := .want_message, rxNonce := n1 }, hpf, ?_, rfl, rfl, hd⟩
+  rw [l2Token_record cfg u body pt n1 r hr ho hp]
+  cases r <;> first | exact absurd rfl hk | simp [hd, DCP.table]
 
 /-! ## end to end -/
 
